@@ -2,3 +2,5 @@
 struct verif_copy_ghost g_c;
 struct verif_copy_const g_cc;
 struct verif_copy_res g_cq;
+struct verif_cstr g_cs; /* ghost record of the C string handed to cbor_build_string */
+size_t g_j;            /* second ghost index: an arbitrary position before the terminating NUL */
